@@ -121,6 +121,12 @@ def match_finding(findings, prop, ob_name, tag, detail):
 def run_property(prop, tier, obligations, meta, seed=0):
     """Runs all obligations; prints KNOWN-FINDING / VIOLATION lines; writes evidence; returns exit code."""
     t0 = time.time()
+    seen_names, uniq = set(), []
+    for o in obligations:          # obligation names identify scratch directories and results: they must be unique
+        if o["name"] not in seen_names:
+            seen_names.add(o["name"])
+            uniq.append(o)
+    obligations = uniq
     scratch = tempfile.mkdtemp(prefix="vf_%s_" % prop)
     findings = load_findings()
     results = []
